@@ -36,6 +36,7 @@ INTERPRETED = (
     "picosvg.svg_meta",
     "fontTools.misc.arrayTools",
     "fontTools.misc.roundTools",
+    "fontTools.ttLib.tables.otTables",
     "spec",
     "c_",
     "contracts",
@@ -71,6 +72,7 @@ class Contract:
         self.ensures = a.get("ensures", {})
         self.raises = a.get("raises", {})  # exc name -> condition (iff)
         self.may_raise = tuple(a.get("may_raise", ()))
+        self.raises_if = a.get("raises_if", {})  # exc name -> condition under which it MUST end in exc (one direction)
         self.returns = a.get("returns", None)
         self.modular = bool(a.get("modular", self.returns is not None))
         self.free = a.get("free", {})  # closure variables for nested functions
@@ -694,6 +696,9 @@ def verify_contract(world, c, tier="quick", loop_support=None, known=None, only_
                 for exc, cond in c.raises.items():
                     t = ipc.truth(bool_clause(ipc, cond, pr.args))
                     obls.append(Obl(f"raises:{exc}-if@{ptag}", pr.pc, to_bool_term(b_not(t)), "raises", k, pr.args, {"result": pr.value}))
+                for exc, cond in c.raises_if.items():
+                    t = ipc.truth(bool_clause(ipc, cond, pr.args))
+                    obls.append(Obl(f"must-raise:{exc}-if@{ptag}", pr.pc, to_bool_term(b_not(t)), "raises", k, pr.args, {"result": pr.value}))
             else:
                 covers["raises"] += 1
                 exc = pr.value.cls_name
@@ -704,7 +709,7 @@ def verify_contract(world, c, tier="quick", loop_support=None, known=None, only_
                 if matched is not None:
                     t = ipc.truth(bool_clause(ipc, c.raises[matched], pr.args))
                     obls.append(Obl(f"raises:{matched}-only-if@{ptag}", pr.pc, to_bool_term(t), "raises", k, pr.args, {"raised": exc}))
-                elif any(I.exc_isa(exc, e2) for e2 in c.may_raise):
+                elif any(I.exc_isa(exc, e2) for e2 in c.may_raise) or any(I.exc_isa(exc, e2) for e2 in c.raises_if):
                     pass
                 else:
                     obls.append(Obl(f"no-unexpected:{exc}@{ptag}", pr.pc, z3.BoolVal(False), "raises", k, pr.args, {"raised": exc}))
